@@ -14,7 +14,8 @@ Record Fr (g : nat) (h h' : half) : Prop := mkFr {
   fr_q : forall g', g' <> g -> getq h' g' = getq h g';
   fr_qs : forall g', q_max (getq h' g') = q_max (getq h g') /\ q_ents (getq h' g') = q_ents (getq h g') /\ q_heur (getq h' g') = q_heur (getq h g');
   fr_e : forall t, grp_of h t <> g -> getent h' t = getent h t;
-  fr_lim : forall t, e_max (getent h' t) = e_max (getent h t) /\ e_min (getent h' t) = e_min (getent h t) }.
+  fr_lim : forall t, e_max (getent h' t) = e_max (getent h t) /\ e_min (getent h' t) = e_min (getent h t);
+  fr_cur : h_cur h' = h_cur h /\ h_max h' = h_max h }.
 
 Lemma Fr_refl g h : Fr g h h.
 Proof. constructor; auto. Qed.
@@ -24,6 +25,7 @@ Proof. intros A B. destruct A, B. constructor; try congruence.
   - intros g'. destruct (fr_qs0 g') as (a & b & c), (fr_qs1 g') as (a' & b' & c'). repeat split; congruence.
   - intros t N. rewrite fr_e1, fr_e0; auto. unfold grp_of in *. rewrite fr_tgrp0. auto.
   - intros t. destruct (fr_lim0 t), (fr_lim1 t). split; congruence.
+  - destruct fr_cur0, fr_cur1. split; congruence.
 Qed.
 
 Lemma q_add_proj a b q : q_max (q_add a b q) = q_max q /\ q_ents (q_add a b q) = q_ents q /\ q_heur (q_add a b q) = q_heur q.
@@ -47,6 +49,7 @@ Proof.
   - intros g'. repeat split; (etransitivity; [apply getq_updq_proj; reflexivity|reflexivity]).
   - intros t' N. rewrite getent_updq. rewrite getent_upde_neq by congruence. reflexivity.
   - intros t'. rewrite getent_updq. split; (etransitivity; [apply (getent_upde_proj _ t F); intros; apply HF|reflexivity]).
+  - split; reflexivity.
 Qed.
 
 Lemma inner_Fr c h h' : set_not_queued_inner c h = Ok h' -> Fr (grp_of h (tor_of h c)) h h'.
